@@ -60,6 +60,8 @@ def gen(rng, broker, tier):
     return {
         "mode": "worker", "M": M, "tasks_limit": rng.choice([1, 2, 3, M, M + 1, 50, 1000]),
         "nq": nq, "jobs": jobs, "graceful_s": rng.choice([60.0, 60.0, 0.2, 0.02]),
+        "late_arrival": rng.choice([None, {"q": rng.randrange(3), "k": rng.randint(0, 40)},
+                                    {"q": rng.randrange(3), "mode": "before-end", "lead_us": rng.choice([500, 100, 1500, 10])}]),
         "knobs": {"step_cost": rng.choice([0, 0, 1, "rand"])},
     }
 
@@ -90,11 +92,43 @@ async def _main_worker(sim, sc, out):
     prod = sim.loop.spawn("w", workload.producer(world, conn, late, enq))
     limit_hit = {}
 
+    extra_jobs = []
+
     def on_end(jid, n, node, how):
         if len(state.ends) == M and "at" not in limit_hit:
             limit_hit["at"] = sim.clock.us
             limit_hit["running"] = sum(state.inflight.values())
+            la = sc.get("late_arrival")
+            if la and la.get("mode") != "before-end":
+                # one more message reaches (another) queue a seeded number of loop steps after the M-th execution ended,
+                # i.e. while the consumers are being stopped: it stays in its queue
+                xj = {"id": "jx", "name": f"a{la['q'] % sc['nq']}", "queue": f"q{la['q'] % sc['nq']}", "prio": 5, "at_us": 0,
+                      "beh": [{"do": "return", "dur_us": 0}]}
 
+                def arrive():
+                    jobs["jx"] = xj
+                    extra_jobs.append(sim.loop.spawn("w", workload.producer(world, conn, [xj], enq)))
+                    sim.count("arrival-anchored-to-the-limit")
+
+                sim.at_step(sim.loop.step + 1 + la["k"], arrive)
+
+    def on_start(jid, n, node):
+        la = sc.get("late_arrival")
+        d = jobs[jid]["beh"][0].get("dur_us", 0)
+        if la and la.get("mode") == "before-end" and len(state.starts) == M and d >= 1000 and "jx" not in jobs:
+            # the message is in (another) queue half a millisecond before the M-th execution ends: the consumer of that
+            # queue polls it in the very instant in which the consumers are stopped
+            xj = {"id": "jx", "name": f"a{la['q'] % sc['nq']}", "queue": f"q{la['q'] % sc['nq']}", "prio": 5, "at_us": 0,
+                  "beh": [{"do": "return", "dur_us": 0}]}
+
+            def arrive2():
+                jobs["jx"] = xj
+                extra_jobs.append(sim.loop.spawn("w", workload.producer(world, conn, [xj], enq)))
+                sim.count("arrival-just-before-the-limit")
+
+            sim.loop.call_at_us(sim.clock.us + d - la.get("lead_us", 500), arrive2)
+
+    state.on_start = on_start
     state.on_end = on_end
     t0 = sim.clock.us
     wt = sim.loop.spawn("w", w.run())
@@ -110,6 +144,13 @@ async def _main_worker(sim, sc, out):
     starts_in_run = len(state.starts)
     ends_in_run = len([e for e in state.ends if e[4] != "cancelled"])
     await prod
+    if sc.get("late_arrival") and "at" in limit_hit and sc["late_arrival"].get("mode") != "before-end":
+        for _ in range(200):  # (let the loop reach the step the arrival is anchored to)
+            if extra_jobs:
+                break
+            await asyncio.sleep(0.0005)
+    for t_ in extra_jobs:
+        await t_
     await asyncio.sleep(0.5)
     insp = world.inspect()
     B = len(jobs)
